@@ -228,12 +228,18 @@ pub fn exec(m: Mode, spec: &Spec, r: &mut RunResult) {
                 r.bump("excluded.limit_reached_probe", 1);
                 continue;
             }
-            if m == Mode::C18 && lifetimes {
-                r.bump("excluded.lifetimes_not_compared", 1);
-                continue;
-            }
             r.bump("order.compared", 1);
-            if a.names != b.names {
+            // worlds with lifetimes (C18 only): region constraints are not compared, kind of answer and types are
+            let differs = if m == Mode::C18 && lifetimes {
+                r.bump("c18.compared_modulo_lifetimes", 1);
+                match (&a.out, &b.out) {
+                    (Out::Ans(x), Out::Ans(y)) => !cmp::same_modulo_lifetimes(x, y),
+                    _ => a.names != b.names,
+                }
+            } else {
+                a.names != b.names
+            };
+            if differs {
                 let op = &spec.ops[i];
                 let cfg = &spec.slots[op.slot];
                 let mut sig = format!("{}:differs", cfg.kind());
